@@ -51,21 +51,34 @@ def hexVal (c : UInt8) : Option Nat :=
   else if 65 ≤ c ∧ c ≤ 70 then some (c.toNat - 55)
   else none
 
-/-- `url.QueryUnescape`: `%XX` → byte, `+` → space; a malformed escape is an error. -/
-def unescape : Bytes → Option Bytes
-  | [] => some []
-  | c :: cs =>
-    if c = 37 then
-      match cs with
-      | h1 :: h2 :: r =>
-        match hexVal h1, hexVal h2, unescape r with
-        | some a, some b, some u => some ((a * 16 + b).toUInt8 :: u)
-        | _, _, _ => none
-      | _ => none
+/-- Scanner state of `url.QueryUnescape`: plain text, just after `%`, after `%` and one hex digit. -/
+inductive USt
+  | normal | pct | pct1 (a : Nat)
+
+/-- `url.QueryUnescape`: `%XX` → byte, `+` → space; a malformed or truncated escape is an error. -/
+def unescapeGo : USt → Bytes → Option Bytes
+  | .normal, [] => some []
+  | .pct, [] => none
+  | .pct1 _, [] => none
+  | .normal, c :: cs =>
+    if c = 37 then unescapeGo .pct cs
     else
-      match unescape cs with
+      match unescapeGo .normal cs with
       | none => none
       | some u => some ((if c = 43 then 32 else c) :: u)
+  | .pct, c :: cs =>
+    match hexVal c with
+    | some a => unescapeGo (.pct1 a) cs
+    | none => none
+  | .pct1 a, c :: cs =>
+    match hexVal c with
+    | some b =>
+      (match unescapeGo .normal cs with
+       | none => none
+       | some u => some ((a * 16 + b).toUInt8 :: u))
+    | none => none
+
+def unescape (s : Bytes) : Option Bytes := unescapeGo .normal s
 
 /-- Split at every occurrence of `sep`. -/
 def splitOn (sep : UInt8) : Bytes → List Bytes
